@@ -1,6 +1,7 @@
 import Gomacro.Drv.Sem
 import Gomacro.TsGen
 import Gomacro.EndToEnd
+import Gomacro.RoundTrip
 namespace Gomacro.Drv
 open Lean Gomacro.IR Gomacro.GoJson Gomacro.TsGen
 
@@ -61,5 +62,28 @@ def c03Fragment : Handler := fun j => do
   return Json.mkObj [("inFragment", Json.bool (E2E.fragmentB env w tenv ds)),
     ("outside", strs (bad.map (·.name))), ("nameds", Json.bool w.nameds.isEmpty),
     ("hasType", Json.arr vals.toArray)]
+
+/-- op `c02.roundtrip`: is the program inside the fragment of the round-trip theorem
+(`Props/C02E2E.lean`), are the dumped values (without the fields encoding/json never writes)
+strictly typed, and the instance of the theorem evaluated: decode (encode v) = some v -/
+def c02RoundTrip : Handler := fun j => do
+  let env ← decEnv (← getObj j "env")
+  let w := decWrappers ((j.getObjVal? "wrappers").toOption.getD (Json.mkObj []))
+  let start := (env.source.flatMap Ty.refs).eraseDups
+  let ds := env.decls
+  let reach := (reachAux env (env.decls.length + 1) start).filterMap env.find?
+  let bad := ds.filter fun d => !(E2E.declOk env w d)
+  let vals ← (getListD j "values").mapM fun x => do
+    let t ← decTy (← getObj x "type")
+    let v ← decGoVal (← getObj x "val")
+    let sv := RoundTrip.strip env 64 t v
+    let typed := RoundTrip.wt env 64 t sv
+    let back := RoundTrip.decode env w 64 false t (encode env w 64 false t sv)
+    let same := match back with | some b => RoundTrip.goValBeq b sv | none => false
+    pure (Json.mkObj [("wt", Json.bool typed), ("same", Json.bool same), ("decoded", Json.bool back.isSome)])
+  return Json.mkObj [("inFragment", Json.bool (RoundTrip.fragmentRTB env w ds)),
+    ("reachableInFragment", Json.bool (RoundTrip.fragmentRTB env w reach)),
+    ("outside", strs (bad.map (·.name))), ("nameds", Json.bool w.nameds.isEmpty),
+    ("values", Json.arr vals.toArray)]
 
 end Gomacro.Drv
